@@ -223,8 +223,10 @@ def run(ctx):
                        "replay_cmd": "%s replay <file with the case line>" % exe}, signature=sig)
 
     # ---- (2) operations under ASan/LSan
-    n_inputs = shards * (60 if quick else 900)
-    r = verif.run_stream(exe, "ops", ctx.seed, n_inputs, ctx.work, shards=shards, driver_exe=DRV, env=ASAN_ENV,
+    # thorough: bigger inputs, all k <= 48 per input: ~12 s per (op, input) under ASan -> 44 per shard on up to 16 shards
+    oshards = shards if quick else min(verif.NPROC, 16)
+    n_inputs = oshards * (60 if quick else 44)
+    r = verif.run_stream(exe, "ops", ctx.seed, n_inputs, ctx.work, shards=oshards, driver_exe=DRV, env=ASAN_ENV,
                          harness_args=(ctx.tier,), timeout=3400)
     st = r["stats"]
     dis = [] if r["error"] else all_disagreements(ctx.work, "ops")
